@@ -3,7 +3,7 @@ CONSTANTS
   NV = 2
   StabV = {}
   NP = 2
-  UseQueue = TRUE
+  UseQueue = FALSE
   SkipQueue = FALSE
   Faults = FALSE
   MaxC = 9
@@ -11,7 +11,7 @@ CONSTANTS
   Atomic = TRUE
   ReportFine = FALSE
   AutoApprove = TRUE
-  Opts = {}
+  Opts = {"nooct"}
   ReportOnce = TRUE
   MaxLevel = 10
   EmitJson = FALSE
